@@ -20,6 +20,33 @@ KEYS = ["up", "down", "page up", "page down", "home", "end", "a", "left", "right
 THUMB = "█"
 
 
+_FIXED = None
+
+
+def _fixed_class():
+    """Made once per process: urwid's metaclasses keep every widget class for ever."""
+    global _FIXED  # noqa: PLW0603
+    if _FIXED is None:
+        import urwid  # noqa: PLC0415
+
+        class Fixed(urwid.Widget):
+            _sizing = frozenset(["fixed"])
+            _selectable = False
+
+            def __init__(self, rows_n, cols_n):
+                super().__init__()
+                self.rows_n, self.cols_n = rows_n, cols_n
+
+            def pack(self, size=(), focus=False):
+                return (self.cols_n, self.rows_n)
+
+            def render(self, size, focus=False):
+                return urwid.TextCanvas([(f"{i:02d}" + "f" * self.cols_n)[: self.cols_n].encode() for i in range(self.rows_n)], maxcol=self.cols_n)
+
+        _FIXED = Fixed
+    return _FIXED
+
+
 def build_inner(spec: dict):
     import urwid  # noqa: PLC0415
 
@@ -39,19 +66,7 @@ def build_inner(spec: dict):
                 items.append(urwid.Divider("-"))
         return urwid.Pile(items)
     if k == "fixed":
-
-        class Fixed(urwid.Widget):
-            _sizing = frozenset(["fixed"])
-            _selectable = False
-            rows_n, cols_n = spec["rows"], spec["cols"]
-
-            def pack(self, size=(), focus=False):
-                return (self.cols_n, self.rows_n)
-
-            def render(self, size, focus=False):
-                return urwid.TextCanvas([(f"{i:02d}" + "f" * self.cols_n)[: self.cols_n].encode() for i in range(self.rows_n)], maxcol=self.cols_n)
-
-        return Fixed()
+        return _fixed_class()(spec["rows"], spec["cols"])
     raise core.HarnessError(f"unknown inner {k}")
 
 
